@@ -44,15 +44,20 @@ class Check(core.CheckBase):
         found = []
         wanted = case.get('index')
         for index in range(self.PER_BLOCK):
-            kind = index % 3
-            pair = self.gen.kexinit(rng) if kind == 0 else self.gen.host_key_pair(rng) if kind == 1 else self.gen.certificate(rng)
+            kind = index % 4
+            if kind == 3:
+                # the same subject key certified twice: each certificate has its own blob, hence its own fingerprints
+                pairs = self.gen.certificate_renewed(rng)
+            else:
+                pairs = [self.gen.kexinit(rng) if kind == 0 else self.gen.host_key_pair(rng) if kind == 1 else self.gen.certificate(rng)]
             if wanted is not None and index != wanted:
                 continue
             single = dict(case, index=index)
-            if kind == 0:
-                found.extend(self.judge_kexinit(pair, single))
-            else:
-                found.extend(self.judge_key(pair, single))
+            for pair in pairs:
+                if kind == 0:
+                    found.extend(self.judge_kexinit(pair, single))
+                else:
+                    found.extend(self.judge_key(pair, single))
         dedup = {}
         for violation in found:
             dedup.setdefault(violation.key, violation)
